@@ -267,18 +267,25 @@ def run_chunk(args):
 
 
 def load_chains(ctx, thorough: bool, rnd: random.Random):
-    rs = ctx.tlc_many([("Jwk", "Jwk_" + k, {"timeout": 900}) for k in ("oct", "RSA", "EC", "OKP")])
+    from .common import parse_case_line
+    rs = ctx.tlc_many([("Jwk", "Jwk_" + k + ("" if thorough else "_quick"), {"timeout": 900, "lazy_cases": not thorough}) for k in ("oct", "RSA", "EC", "OKP")])
     if thorough:
         ctx.tlc_many([("Jwk", "Jwk_dev_" + d, {"timeout": 600, "expect_violation": True})
                       for d in ("PublicExportLeaks", "PrivateOnPublicSilent", "KidOverwritten", "PemKeepsKid", "SetExportIgnoresFlag", "PublicKeySkipsFilter")])
     items = []
     total = 0
-    for r in rs:
-        cs = list({json.dumps(c, sort_keys=True): c for c in r.cases}.values())
-        total += len(cs)
-        kty = cs[0]["kty"]
-        n = min(len(cs), (12000 if thorough else 1200) if kty != "oct" else 2000)
-        pick = rnd.sample(cs, n)
+    for r, kty in zip(rs, ("oct", "RSA", "EC", "OKP")):
+        if thorough:
+            cs = list({json.dumps(c, sort_keys=True): c for c in r.cases}.values())
+            total += len(cs)
+            pick = rnd.sample(cs, min(len(cs), 12000 if kty != "oct" else 2000))
+        else:
+            # quick: a seeded sample of the exported behaviours is replayed, so only the picked lines are parsed
+            lines = sorted(set(r.case_lines))
+            total += len(lines)
+            pick = [parse_case_line(l) for l in rnd.sample(lines, min(len(lines), 1200 if kty != "oct" else 2000))]
+        if not pick or pick[0]["kty"] != kty:
+            raise RuntimeError(f"chain export of {kty} is empty or mixed up")
         kinds = KINDS[kty]
         for i, c in enumerate(pick):
             items.append((len(items), c, kinds[i % len(kinds)] if kty != "RSA" else (kinds[0] if i % 10 else kinds[1 + i % 2])))
